@@ -286,8 +286,177 @@ theorem minv_step (m : MState) (l : Label) (m' : MState) (h : MInv m) (hs : mste
   | pollerIdle g =>
     simp only [mstep] at hs
     cases hs; exact ⟨h.quiet, h.held, h.res⟩
+  | get i n =>
+    simp only [mstep] at hs
+    cases hs; exact ⟨h.quiet, h.held, h.res⟩
 
 theorem minv_reachable (m : MState) (h : GB.LTS.Reachable mstep minit m) : MInv m :=
   GB.LTS.invariant mstep minit MInv minv_init minv_step m h
+
+/-! ### lock-free `pool.Get` (label `get`) -/
+
+theorem poolGet_fixed_ne_nil (s : State) (n : Name) : poolGet true s n ≠ .nilPresent := by
+  unfold poolGet
+  cases s.conns n with
+  | none => simp
+  | some g => by_cases hc : s.clientSet g = true <;> simp [hc]
+
+theorem poolGet_usable_iff (s : State) (n : Name) (g : Nat) :
+    poolGet true s n = .usable g ↔ s.conns n = some g ∧ s.clientSet g = true := by
+  unfold poolGet
+  cases hcn : s.conns n with
+  | none => simp
+  | some g' =>
+    by_cases hc : s.clientSet g' = true
+    · simp [hc]; intro e; subst e; exact hc
+    · simp [hc]; intro e; subst e; simpa using hc
+
+theorem poolGet_absent_iff (s : State) (n : Name) :
+    poolGet true s n = .absent ↔ ∀ g, s.conns n = some g → s.clientSet g = false := by
+  unfold poolGet
+  cases hcn : s.conns n with
+  | none => simp
+  | some g' => by_cases hc : s.clientSet g' = true <;> simp [hc]
+
+/-- a step leaves the recorded answers alone, or is a `get` that appends the pool lookup on the CURRENT state -/
+theorem got_step (m : MState) (l : Label) (m' : MState) (hs : mstep m l = some m') :
+    (m'.got = m.got ∧ ∀ i n, l ≠ .get i n) ∨
+    ∃ i n, l = .get i n ∧ m'.got = m.got ++ [(i, n, poolGet true m.st n)] ∧ m'.st = m.st ∧ m'.hold = m.hold ∧ m'.log = m.log := by
+  cases l with
+  | lock i op =>
+    simp only [mstep] at hs
+    cases hh : m.hold with
+    | some x => simp [hh] at hs
+    | none => simp [hh] at hs; subst hs; exact Or.inl ⟨rfl, by intros; simp⟩
+  | step i =>
+    simp only [mstep] at hs
+    cases hh : m.hold with
+    | none => simp [hh] at hs
+    | some x =>
+      obtain ⟨j, op, pc⟩ := x
+      simp only [hh] at hs
+      split at hs
+      · cases hs; exact Or.inl ⟨rfl, by intros; simp⟩
+      · cases hs
+  | unlock i =>
+    simp only [mstep] at hs
+    split at hs
+    · split at hs
+      · cases hs; exact Or.inl ⟨rfl, by intros; simp⟩
+      · cases hs
+    · cases hs
+  | pollerBusy g =>
+    simp only [mstep] at hs
+    split at hs
+    · cases hs; exact Or.inl ⟨rfl, by intros; simp⟩
+    · cases hs
+  | pollerIdle g =>
+    simp only [mstep] at hs
+    cases hs; exact Or.inl ⟨rfl, by intros; simp⟩
+  | get i n =>
+    simp only [mstep] at hs
+    cases hs; exact Or.inr ⟨i, n, rfl, rfl, rfl, rfl, rfl⟩
+
+/-- every answer ever recorded is absent or a fully built controller's connection — never present-but-nil -/
+def GotInv (m : MState) : Prop := ∀ x ∈ m.got, x.2.2 ≠ GetRes.nilPresent
+
+theorem gotinv_reachable (m : MState) (h : GB.LTS.Reachable mstep minit m) : GotInv m := by
+  refine GB.LTS.invariant mstep minit GotInv (by intro x hx; simp [minit] at hx) ?_ m h
+  intro s l s' hi hs x hx
+  rcases got_step s l s' hs with ⟨e, _⟩ | ⟨i, n, _, e, _⟩
+  · rw [e] at hx; exact hi x hx
+  · rw [e] at hx
+    rcases List.mem_append.1 hx with hx | hx
+    · exact hi x hx
+    · simp at hx; subst hx; exact poolGet_fixed_ne_nil _ _
+
+/-- the pool lookup during a successful Add of an absent name: present from statement 3 (client stored) on -/
+theorem poolGet_partialAdd {s : State} (h : Inv s) (n : Name) (hn : s.targets n = none) (j : Nat) (hj : j ≤ 7) :
+    poolGet true (partialAdd s n j) n = (if 3 ≤ j then .usable s.next else .absent) ∧
+    (∀ n', n' ≠ n → poolGet true (partialAdd s n j) n' = poolGet true s n') ∧
+    (3 ≤ j → (partialAdd s n j).connOpen s.next = true) := by
+  have hc : s.conns n = none := by rw [h.conns_eq]; exact hn
+  have hcl : s.clientSet s.next = false := h.fresh.2.2.2.2.2
+  have hlt : ∀ n' g, s.conns n' = some g → g ≠ s.next := by
+    intro n' g hg e
+    rw [h.conns_eq] at hg
+    have := (h.live n' g hg).1
+    omega
+  refine ⟨?_, ?_, ?_⟩
+  · match j, hj with
+    | 0, _ => simp [partialAdd, poolGet, hc]
+    | 1, _ => simp [partialAdd, poolGet, hc]
+    | 2, _ => simp [partialAdd, poolGet, hc, hcl]
+    | 3, _ => simp [partialAdd, poolGet, hc, hcl]
+    | 4, _ => simp [partialAdd, poolGet, hc, hcl]
+    | 5, _ => simp [partialAdd, poolGet, hc, hcl]
+    | 6, _ => simp [partialAdd, poolGet, hc, hcl]
+    | 7, _ => simp [partialAdd, poolGet, hc, hcl]
+  · intro n' hne
+    cases hcn : s.conns n' with
+    | none =>
+      match j, hj with
+      | 0, _ => simp [partialAdd, poolGet, hcn, hne]
+      | 1, _ => simp [partialAdd, poolGet, hcn, hne]
+      | 2, _ => simp [partialAdd, poolGet, hcn, hne]
+      | 3, _ => simp [partialAdd, poolGet, hcn, hne]
+      | 4, _ => simp [partialAdd, poolGet, hcn, hne]
+      | 5, _ => simp [partialAdd, poolGet, hcn, hne]
+      | 6, _ => simp [partialAdd, poolGet, hcn, hne]
+      | 7, _ => simp [partialAdd, poolGet, hcn, hne]
+    | some g =>
+      have hg := hlt n' g hcn
+      match j, hj with
+      | 0, _ => simp [partialAdd, poolGet, hcn, hne, hg]
+      | 1, _ => simp [partialAdd, poolGet, hcn, hne, hg]
+      | 2, _ => simp [partialAdd, poolGet, hcn, hne, hg]
+      | 3, _ => simp [partialAdd, poolGet, hcn, hne, hg]
+      | 4, _ => simp [partialAdd, poolGet, hcn, hne, hg]
+      | 5, _ => simp [partialAdd, poolGet, hcn, hne, hg]
+      | 6, _ => simp [partialAdd, poolGet, hcn, hne, hg]
+      | 7, _ => simp [partialAdd, poolGet, hcn, hne, hg]
+  · intro h3
+    match j, hj with
+    | 0, _ | 1, _ | 2, _ => omega
+    | 3, _ => simp [partialAdd]
+    | 4, _ => simp [partialAdd]
+    | 5, _ => simp [partialAdd]
+    | 6, _ => simp [partialAdd]
+    | 7, _ => simp [partialAdd]
+
+/-- the pool lookup during Remove of a present name: gone from statement 5 (poolController.Close) on, and from then
+    on the connection is closed -/
+theorem poolGet_partialRemove {s : State} (h : Inv s) (n : Name) (g : Nat) (hn : s.targets n = some g) (j : Nat) (hj : j ≤ 6) :
+    poolGet true (partialRemove s n g j) n = (if 5 ≤ j then .absent else .usable g) ∧
+    (∀ n', n' ≠ n → poolGet true (partialRemove s n g j) n' = poolGet true s n') ∧
+    (partialRemove s n g j).connOpen g = decide (j < 5) := by
+  obtain ⟨l1, l2, l3, l4, l5, l6, l7, l8⟩ := h.live n g hn
+  have hc : s.conns n = some g := by rw [h.conns_eq]; exact hn
+  refine ⟨?_, ?_, ?_⟩
+  · match j, hj with
+    | 0, _ => simp [partialRemove, poolGet, hc, l3]
+    | 1, _ => simp [partialRemove, poolGet, hc, l3]
+    | 2, _ => simp [partialRemove, poolGet, hc, l3]
+    | 3, _ => simp [partialRemove, poolGet, hc, l3]
+    | 4, _ => simp [partialRemove, poolGet, hc, l3]
+    | 5, _ => simp [partialRemove, poolGet, hc, l3, l2]
+    | 6, _ => simp [partialRemove, poolGet, hc, l3, l2]
+  · intro n' hne
+    match j, hj with
+    | 0, _ => simp [partialRemove, poolGet]
+    | 1, _ => simp [partialRemove, poolGet]
+    | 2, _ => simp [partialRemove, poolGet]
+    | 3, _ => simp [partialRemove, poolGet]
+    | 4, _ => simp [partialRemove, poolGet]
+    | 5, _ => simp [partialRemove, poolGet, l2, hne]
+    | 6, _ => simp [partialRemove, poolGet, l2, hne]
+  · match j, hj with
+    | 0, _ => simp [partialRemove, l5]
+    | 1, _ => simp [partialRemove, l5]
+    | 2, _ => simp [partialRemove, l5]
+    | 3, _ => simp [partialRemove, l5]
+    | 4, _ => simp [partialRemove, l5]
+    | 5, _ => simp [partialRemove]
+    | 6, _ => simp [partialRemove]
 
 end GB.C16.Lts
